@@ -213,7 +213,9 @@ func (m *Machine) Apply(a *Action) (Outcome, error) {
 		if dt <= 0 {
 			dt = 1
 		}
-		c.NextBlock(time.Duration(dt) * time.Second)
+		if err := m.nextBlock(dt); err != nil {
+			return Outcome{}, err
+		}
 		return Outcome{OK: true, Included: true}, nil
 	case "depositLST":
 		return fromCall(c.DepositLST(m.caller(a.Caller), a.Asset, m.ActorAddr(a.Actor), amt(a.Amount)))
@@ -259,7 +261,9 @@ func (m *Machine) Apply(a *Action) (Outcome, error) {
 		return Outcome{OK: res.Code == 0, Included: res.Code == 0, Note: res.Log}, nil
 	case "slash":
 		// x/slashing and x/evidence slash from BeginBlock: move to the beginning of the next block.
-		c.NextBlock(time.Duration(maxInt(a.Dt, 1)) * time.Second)
+		if err := m.nextBlock(maxInt(a.Dt, 1)); err != nil {
+			return Outcome{}, err
+		}
 		if c.Halted != nil {
 			return Outcome{}, nil
 		}
@@ -296,7 +300,9 @@ func (m *Machine) Apply(a *Action) (Outcome, error) {
 		}
 		return Outcome{OK: ok, Included: true, Note: fmt.Sprintf("found=%v id=%s", found, slashID)}, nil
 	case "jail", "unjail":
-		c.NextBlock(time.Duration(maxInt(a.Dt, 1)) * time.Second)
+		if err := m.nextBlock(maxInt(a.Dt, 1)); err != nil {
+			return Outcome{}, err
+		}
 		if c.Halted != nil {
 			return Outcome{}, nil
 		}
@@ -335,6 +341,29 @@ func (m *Machine) Apply(a *Action) (Outcome, error) {
 		return m.cosmos(m.W.Operators[a.Op], msg)
 	}
 	return Outcome{}, fmt.Errorf("unknown action %q", a.Kind)
+}
+
+// midBlocker is implemented by invariants that want to look at the committed state between two
+// blocks (after EndBlock/Commit, before the next BeginBlock).
+type midBlocker interface {
+	MidBlock(m *Machine) error
+}
+
+func (m *Machine) nextBlock(dt int) error {
+	c := m.C
+	c.EndBlock()
+	c.Commit()
+	if c.Halted == nil {
+		for _, inv := range m.Inv {
+			if mb, ok := inv.(midBlocker); ok {
+				if err := mb.MidBlock(m); err != nil {
+					return err
+				}
+			}
+		}
+	}
+	c.BeginBlock(time.Duration(dt)*time.Second, nil)
+	return nil
 }
 
 func (m *Machine) cosmos(from sim.AccountKey, msgs ...sdk.Msg) (Outcome, error) {
